@@ -31,6 +31,8 @@
 #define MAXT 4096
 #define MAXL 8
 #define MAXH 512
+#define CASE_SECONDS 3   /* a case takes well under a millisecond */
+#define MAXCRASH 40
 static parsec_task_t *pool[MAXT];
 static int npool;
 static FILE *out;
@@ -194,15 +196,19 @@ int main(int argc, char **argv) {
     }
     volatile long *done = mmap(NULL, sizeof(long), PROT_READ | PROT_WRITE, MAP_SHARED | MAP_ANONYMOUS, -1, 0);
     if (done == MAP_FAILED) { perror("mmap"); return 2; }
-    long start = 0;
+    long start = 0; int crashes = 0;
     while (start < ncases) {
+        if (crashes >= MAXCRASH) {      /* the code under test is badly broken: do not spend the timeouts */
+            for (long j = start; j < ncases; j++) printf("<skipped after %d crashes>\n", crashes);
+            break;
+        }
         *done = start;
         fflush(stdout);
         pid_t pid = fork();
         if (0 == pid) {
             for (long j = start; j < ncases; j++) {
                 char *buf = NULL; size_t len = 0;
-                alarm(20);
+                alarm(CASE_SECONDS);
                 npool = 0;
                 out = open_memstream(&buf, &len);
                 l = cases[j];
@@ -221,6 +227,7 @@ int main(int argc, char **argv) {
         if (WIFEXITED(st) && WEXITSTATUS(st) == 0 && *done == ncases) break;
         if (WIFSIGNALED(st)) printf("<crash signal=%d>\n", WTERMSIG(st));
         else printf("<crash exit=%d>\n", WIFEXITED(st) ? WEXITSTATUS(st) : -1);
+        crashes++;
         start = *done + 1;
     }
     return 0;
